@@ -190,4 +190,13 @@ def rule_no_sticky_gate(ctx: Ctx):
     c04.rule_nosticky(ctx, rule="C06.nonblock")
 
 
-RULES = [rule_order, rule_mutex, rule_nonblock, rule_recheck, rule_atomic_async, rule_prims, rule_no_sticky_gate]
+def rule_awaited_before_release(ctx: Ctx):
+    """C06.atomic-async: whatever awaitable a callback hands back (Task, Future, gather, object with __await__) is awaited
+    inside the callback wrapper, i.e. before the drain loop goes on and before the lock is released - otherwise that work
+    overlaps the next event's callbacks and may still be running when every sender has returned."""
+    from . import c05
+
+    c05.rule_wrapper(ctx, rule="C06.atomic-async")
+
+
+RULES = [rule_order, rule_mutex, rule_nonblock, rule_recheck, rule_atomic_async, rule_prims, rule_no_sticky_gate, rule_awaited_before_release]
